@@ -6,5 +6,5 @@ From Coq Require Import ZArith NArith.
 From SWH.lib Require Import Sha1 CutLast.
 From SWH.model Require Import Meta.
 Extraction "extract/C15/model.ml" mk_extid extid_git_object extid_valid parse_extid
-  mk_emd emd_git_object emd_valid parse_emd parse_ext parse_core normalize_date
+  mk_emd mk_emd_in emd_git_object emd_valid parse_emd parse_ext parse_core normalize_date
   auth_word all_auth assoc sha1 Z.of_N N.to_nat.
